@@ -384,9 +384,9 @@ def case_value(ctx, desc):
     if k > 1:
         independent(ctx, snaps, desc, f'{label} as {site}', snap_sig(snaps[0]))
     # the host's iterators must not have been consumed
-    if name == 'generator' and next(value) != 'first':
+    if name == 'generator' and next(value, None) != 'first':
         ctx.violation('C06/host-iterator-consumed/generator', 'the generator local was advanced by the collector', desc)
-    if name == 'list_iterator' and next(value) != 1:
+    if name == 'list_iterator' and next(value, None) != 1:
         ctx.violation('C06/host-iterator-consumed/list_iterator', 'the iterator local was advanced by the collector', desc)
     if name == 'custom_iterator' and value.n != 0:
         ctx.violation('C06/host-iterator-consumed/custom_iterator', 'the iterator local was advanced by the collector', desc)
